@@ -95,6 +95,12 @@ pub fn run_prop(ctx: &Ctx, sink: &mut Sink) {
         chmod(&t.join("d1"), 0o755);
         let c = std::ffi::CString::new(t.join("p0").to_str().unwrap()).unwrap();
         unsafe { libc::mkfifo(c.as_ptr(), 0o640) };
+        // a character and a block device (only root may create them; without them the scene is merely smaller)
+        for (nm, kind, dev) in [("c0", libc::S_IFCHR, libc::makedev(1, 3)), ("b0", libc::S_IFBLK, libc::makedev(7, 0))] {
+            let c = std::ffi::CString::new(t.join(nm).to_str().unwrap()).unwrap();
+            unsafe { libc::mknod(c.as_ptr(), kind | 0o640, dev) };
+        }
+        for (l, target) in [("lc", "c0"), ("lb", "b0")] { let _ = std::os::unix::fs::symlink(target, t.join(l)); }
         let _sock = std::os::unix::net::UnixListener::bind(t.join("s0")).ok();
         for (l, target) in [("lf", "f0"), ("le", "f1"), ("ld", "d1"), ("l0", "d0"), ("lp", "p0"), ("ls", "s0"), ("ldang", "nothing"), ("lself", "lself")] {
             std::os::unix::fs::symlink(target, t.join(l)).unwrap();
